@@ -13,5 +13,6 @@ func rulesC03(c *Ctx, r *Report) {
 	rulesNumWidth(c, r, "formats/sam")
 	rulesEntryPoints(c, r, "formats/sam")
 	rulesNoFloatToInt(c, r, "formats/sam")
+	rulesSplitters(c, r, "formats/sam", "\t")
 	r.floor("REJECT-ONLY", rulesRejectOnly(c, r, c.role("sam.parseLine"), "formats/sam.parseLine", samRejectCfg()), 6, "errors constructed and external error sources in parseLine, parseInts, parseTags, splitTag (7 constructed, Atoi x2, ParseFloat, DecodeString today)")
 }
